@@ -757,6 +757,33 @@ func genC15(g *Gen, tier string, emit func(op string, args ...string)) {
 
 	// (d) I/O failures at chosen places
 	genC15IO(g, thorough, emit)
+
+	// (e) the texts of the dictionary-language property (rendered dictionaries, single faults, arbitrary bytes) as
+	// file bodies: every fourth one as the root file and as a file the root includes - "never panicking" and
+	// the file/line of a ParseError hold for every body, not only for the bodies of the include graphs
+	{
+		k := 0
+		genC16(NewGen(g.U64()), "quick", func(op string, args ...string) {
+			if (op != "fault" && op != "parse" && op != "rendered") || len(args) < 2 || args[0] == "-" {
+				return
+			}
+			if k++; k%4 != 0 {
+				return
+			}
+			text := unhx(args[0])
+			if bytes.Contains(text, []byte("$INCLUDE")) {
+				return
+			}
+			ign := "0"
+			if args[1] == "1" {
+				ign = "1"
+			}
+			fs := &dpFS{}
+			fs.add("main", []byte("$INCLUDE  inc # the language texts\n"))
+			fs.add("inc", text)
+			emit("walk", fs.arg(), hx([]byte([]string{"main", "inc"}[(k/4)%2])), ign)
+		})
+	}
 }
 
 // ---------------------------------------------------------------------------------------------
